@@ -337,11 +337,10 @@ def report(ctx: click.Context, tjp_file: Optional[str], output_csv: bool, output
         if not success:
             raise ReportGenerationError(error_msg or "Report generation failed")
 
-        # Find ALL generated files in temp directory
-        if output_format == "json":
-            output_files = list(temp_output_dir.glob("*.json"))
-        else:
-            output_files = list(temp_output_dir.glob("*.csv"))
+        # The report to emit is the auto-generated one; the project file may define
+        # further reports, which end up in the same directory
+        auto_output = temp_output_dir / f"{auto_report_id}.{output_format}"
+        output_files = [auto_output] if auto_output.exists() else []
 
         if verbose:
             logger.debug("Found %d output files: %s", len(output_files), [f.name for f in output_files])
